@@ -141,7 +141,7 @@ class Motion:
                     pitch_max=float(np.abs(np.rad2deg(y['rph'][:, 1])).max()))
 
 
-def random_motion(rng, T, aggressive=1.0, lat_range=(-85, 85), speed_max=300.0, alt_range=(-500, 20000), gentle=False):
+def random_motion(rng, T, aggressive=1.0, lat_range=(-85, 85), speed_max=300.0, alt_range=(-500, 20000), gentle=False, closed=False):
     """Stratified random motion whose |lat| stays within 85 deg over [0, T]."""
     R = 6.4e6
     for _ in range(50):
@@ -162,6 +162,11 @@ def random_motion(rng, T, aggressive=1.0, lat_range=(-85, 85), speed_max=300.0, 
             return out
         acc = rng.uniform(0, 6.0) * aggressive * (0.1 if gentle else 1.0)          # horizontal acceleration amplitude m/s^2
         p['lat'] = [float(lat0), float(spd * np.cos(hd) / R)] + sines(2, lambda w: acc / 2 / w ** 2 / R, 0.05, 1.5)
+        if closed:
+            # out-and-back in latitude: whole periods over [0, T], no drift, so the last sample is back at the starting latitude
+            k = int(rng.integers(1, 3))
+            w = 2 * np.pi * k / T
+            p['lat'] = [float(lat0), 0.0, [float(min(spd, 250.0) / w / R), float(w), 0.0], [0.0, 1.0, 0.0]]
         p['lon'] = [float(lon0), float(spd * np.sin(hd) / R / np.cos(lat0))] + sines(2, lambda w: acc / 2 / w ** 2 / R / np.cos(lat0), 0.05, 1.5)
         vacc = rng.uniform(0, 4.0) * aggressive * (0.1 if gentle else 1.0)
         p['alt'] = [float(alt0), float(rng.uniform(-5, 5) * (0.1 if gentle else 1.0))] + sines(2, lambda w: vacc / 2 / w ** 2, 0.05, 1.5)
